@@ -20,4 +20,21 @@ theorem txOut_tie : txOutCases = ["*bc.OriginalOutput", "*bc.VoteOutput"] ∧
 theorem txIn_tie : txInCases = ["*bc.Spend", "*bc.VetoInput"] ∧
     txInSkips = ["!ok", "*resOut.Source.Value.AssetId != *consensus.BTMAssetID"] := by decide
 
+
+/-- the updater decides "reorganised?" with chain.InMainChain(BestHash) (which refuses index
+    entries above the best block) and only then fetches by hash / by height; AttachBlock and
+    DetachBlock write the status as the model's `attachBlock` / `detachBlock` do -/
+theorem updater_shape_tie : walletUpdaterShape =
+    ["call w.getRescanNotification", "for !w.chain.InMainChain(w.status.BestHash)", "call w.chain.InMainChain",
+     "call w.chain.GetBlockByHash", "call w.DetachBlock", "call w.chain.GetBlockByHeight",
+     "call w.walletBlockWaiter", "call w.AttachBlock"] ∧
+    statusWrites_AttachBlock =
+      ["if block.PreviousBlockHash != w.status.WorkHash", "w.status.WorkHeight = block.Height",
+       "w.status.WorkHash = block.Hash()", "if w.status.WorkHeight >= w.status.BestHeight",
+       "w.status.BestHeight = w.status.WorkHeight", "w.status.BestHash = w.status.WorkHash"] ∧
+    statusWrites_DetachBlock =
+      ["w.status.BestHeight = block.Height - 1", "w.status.BestHash = block.PreviousBlockHash",
+       "if w.status.WorkHeight > w.status.BestHeight", "w.status.WorkHeight = w.status.BestHeight",
+       "w.status.WorkHash = w.status.BestHash"] := by decide
+
 end BytomModel.Ties.C24
